@@ -91,11 +91,12 @@ const (
 	siteUnpackTag
 	siteRefOperator // the key as the name of ${key:default}, ${key:+alt} and of a computed reference ${${k}}
 	siteSetterIdx   // the number as idx argument of a setter on a list that has entries already
+	siteCrossOpts   // written under one set of index options, read under another: the reading call's options decide
 	numC20Sites
 )
 
 func (s c20Site) String() string {
-	return [...]string{"single map key", "last segment of a dotted key", "first segment of a dotted key", "middle segment of a dotted key", "struct tag", "name argument of SetString/String/Has/Remove", "struct tag of an Unpack target", "name in ${key:d}, ${key:+a} and ${${k}}", "idx argument of a setter on a non-empty list"}[s]
+	return [...]string{"single map key", "last segment of a dotted key", "first segment of a dotted key", "middle segment of a dotted key", "struct tag", "name argument of SetString/String/Has/Remove", "struct tag of an Unpack target", "name in ${key:d}, ${key:+a} and ${${k}}", "idx argument of a setter on a non-empty list", "key written under other index options than it is read with"}[s]
 }
 
 func c20Space(name string, strs []string) *core.Space {
@@ -121,7 +122,7 @@ func c20Space(name string, strs []string) *core.Space {
 			if (site == siteStructTag || site == siteUnpackTag) && (strings.ContainsAny(s, ",\"`") || s == "") {
 				return core.Result{Skipped: true}
 			}
-			if site == siteRefOperator || site == siteSetterIdx {
+			if site == siteRefOperator || site == siteSetterIdx || site == siteCrossOpts {
 				return c20ExtraSite(site, s, maxIdx, numKeys)
 			}
 			// oracle
@@ -290,6 +291,57 @@ func c20ExtraSite(site c20Site, s string, maxIdx int64, numKeys bool) core.Resul
 			}
 			res.Nontrivial = perr == nil
 			res.Outcome = "reference"
+		case siteCrossOpts:
+			// the config holds the key as a NAME (written with numeric keys enabled) and a list
+			// entry written under the reading options; every reader decides by its own options
+			if s == "" || perr != nil || v < 0 || v > 8 {
+				res.Skipped = true
+				return
+			}
+			cfg, err := ucfg.NewFrom(M{s: "named"}, ucfg.EnableNumKeys(true))
+			if err != nil {
+				res.Skipped = true
+				return
+			}
+			readIsIndex := !numKeys && v <= maxIdx
+			if err := cfg.SetString(s, -1, "listed", opts...); err != nil {
+				res = core.Fail("c20", "CROSS-OPTIONS write", fmt.Sprintf("SetString(%q) under the reading options: %v", s, err))
+				return
+			}
+			want := "listed"
+			got, gerr := cfg.String(s, -1, opts...)
+			has, herr := cfg.Has(s, -1, opts...)
+			if gerr != nil || got != want || herr != nil || !has {
+				res = core.Fail("c20", fmt.Sprintf("CROSS-OPTIONS read index=%v", readIsIndex), fmt.Sprintf("{%q: named} written with EnableNumKeys, then SetString(%q)=listed and String/Has under MaxIdx(%d) EnableNumKeys(%v): String=(%q,%v) Has=(%v,%v); expected the value just written", s, s, maxIdx, numKeys, got, gerr, has, herr))
+				return
+			}
+			// the name written first is still there exactly when the reader's options make s an index
+			named, nerr := cfg.String(s, -1, ucfg.EnableNumKeys(true))
+			if readIsIndex && (nerr != nil || named != "named") {
+				res = core.Fail("c20", "CROSS-OPTIONS name lost", fmt.Sprintf("the name %q written first reads (%q,%v) with EnableNumKeys after a list entry was written at index %d", s, named, nerr, v))
+				return
+			}
+			if ch, err := cfg.Child("", -1); err == nil && ch != nil {
+				_ = ch
+			}
+			// getters of other types agree with Has
+			if _, ierr := cfg.Int(s, -1, opts...); ierr == nil {
+				res = core.Fail("c20", "CROSS-OPTIONS int", "Int of the string value succeeded")
+				return
+			}
+			cfg2, _ := ucfg.NewFrom(M{s: 42}, ucfg.EnableNumKeys(true))
+			h2, _ := cfg2.Has(s, -1, opts...)
+			n2, e2 := cfg2.Int(s, -1, opts...)
+			if readIsIndex && (h2 || e2 == nil) {
+				res = core.Fail("c20", "CROSS-OPTIONS getter-vs-has", fmt.Sprintf("{%q: 42} holds a name; read as index %d: Has=%v Int=(%d,%v) - nothing is stored at that index", s, v, h2, n2, e2))
+				return
+			}
+			if !readIsIndex && (!h2 || e2 != nil || n2 != 42) {
+				res = core.Fail("c20", "CROSS-OPTIONS getter-vs-has", fmt.Sprintf("{%q: 42} read as a name: Has=%v Int=(%d,%v)", s, h2, n2, e2))
+				return
+			}
+			res.Nontrivial = true
+			res.Outcome = fmt.Sprintf("cross index=%v", readIsIndex)
 		case siteSetterIdx:
 			if perr != nil || v < 0 || v > 1<<40 {
 				res.Skipped = true
